@@ -10,7 +10,9 @@ def main():
     for pid in registry.ALL:
         try:
             c = getattr(importlib.import_module(f"props.{pid.lower()}"), "MANIFEST", None)
-        except ModuleNotFoundError:
+        except ModuleNotFoundError as e:
+            if e.name != f"props.{pid.lower()}":
+                raise SystemExit(f"cannot import props.{pid.lower()}: {e} - run with /venv/bin/python")
             c = None
         if not c:
             continue
